@@ -24,6 +24,36 @@ CLAIMED = {
         "stand-in, model and implementation must agree on every cell, and the Lean spec (sound + complete) is evaluated on the "
         "implementation's own outcome.",
         SP_NOTE, "DESIGN.md section 6 C01 + shared SP model"),
+    "C02": (
+        "Lean 4 theorem over a tree model of xmlsec1 verification + pysaml2's validators (partial, with machine-checked counterexample) + per-call differential correspondence on a systematic XML-surgery stream",
+        "Machine-checked proof (Lean 4), PARTIAL: Model/Xsw.lean models the document as a tree with ideal digest/signature leaves, the "
+        "stand-in's xmlsec1 semantics (ID registration by node name, start node, FIRST ds:Signature in document order, same-document "
+        "references, enveloped transform) and SecurityContext._check_signature (object model keeps the LAST singleton child; nine profile "
+        "validators; schema verdict as input). C02_covered_partial: for every document, if the check accepts an element whose own single "
+        "Signature child is the first Signature below it (OwnSigFirst) then the SignatureValue is the key's signature over that SignedInfo, "
+        "whose single Reference names the element's ID and digests exactly the element minus that signature. C02_counterexample proves the "
+        "unrestricted statement false (signature wrapping, known finding). Every run applies the quantifier's surgery (8 carriers x "
+        "Response/Assertion x ID policy x signature policy, duplicate singleton children, Reference/transform/c14n rewrites, extra "
+        "Reference/Object, splices, edits, random tree surgery; ~960 variants quick) to genuinely signed messages, runs the real SP, "
+        "compares EVERY _check_signature call with the model on the abstract tree of that call's document, and evaluates the Lean spec "
+        "(rejected, or reported data equal to a genuinely signed message's) on the end-to-end outcome.",
+        "Trusted: Lean kernel; propext/Classical.choice/Quot.sound; the stand-in's reading of xmlsec1 (cannot be validated against the real "
+        "binary here); ideal digests/signatures; the harness's conversion of documents to abstract trees (DigestValue/SignatureValue texts "
+        "mapped through the genuine signing events); schema validity of the re-serialised item taken from the real xmlschema run; the "
+        "hypothesis of the theorem that the registered ID resolves to the parsed element. Plain (not encrypted) assertions in the surgery stream.",
+        "DESIGN.md section 6 C02"),
+    "C12": (
+        "Lean 4 proof over an executable model of pysaml2's generic object (de)serialiser and a regenerated 567-class table + all-class correspondence",
+        "Machine-checked proof (Lean 4), 20 obligations: round trip, idempotent second serialisation, schema order, unknown-content "
+        "preservation and entity refusal are proved for all class tables, instances (any depth / fan-out) and documents under the decidable "
+        "side conditions treeWf and wireClean; the full statement carries _partial plus six machine-checked counterexamples for the recorded "
+        "known findings; C12_table_wf (chunked decide +kernel) is re-proved from the current source on every run over all 567 element "
+        "classes. Every run round-trips random instances of ALL classes through the real code, compares member by member with the model and "
+        "checks independently rendered documents (prefixes, attribute order, comments, CDATA), unknown content and entity-declaring input.",
+        "Trusted: Lean kernel (+leanchecker thorough); propext/Classical.choice/Quot.sound; translator harness/translate/classtable.py "
+        "(module introspection + AST recognition of setdefault prologues); harness (independent XML writer, reflection, classifier). The "
+        "character level of XML (escaping, prefixes, CDATA, entity refusal) is xml.etree/expat/defusedxml: exercised, modelled only as `wire`.",
+        "DESIGN.md section 6 C12"),
     "C03": (
         "Lean 4 theorems over an executable key-selection model + exhaustive differential correspondence through the xmlsec1 stand-in",
         "Machine-checked proof (Lean 4): for every metadata shape, issuer, signing key and embedded KeyInfo, the model of MetaData.certs + "
